@@ -21,6 +21,7 @@ def run(ctx):
     ctx.section(state_function)
     ctx.section(guards)
     ctx.section(bounds)
+    ctx.section(cache_clean)
 
 
 def eof(ctx):
@@ -219,3 +220,49 @@ def bounds(ctx):
         ok = last_member(e['args'][2]) == ('iv_fd_pump', 'bytes') and canon(e['args'][1]).endswith('u.buf')
         ctx.ob('R-C17d', 'write:length-is-bytes-from-base', ok, loc=e['loc'],
                detail='write(to, %s, %s)' % (canon(e['args'][1]), canon(e['args'][2])), fn=g.q)
+
+
+def cache_clean(ctx):
+    """A buffer (in splice mode: a kernel pipe) goes back to the per-thread cache
+    only if it is empty: buf_put is told the pump's true fill level."""
+    prog = ctx.prog
+    n = 0
+    for f in sorted(prog.all_funcs(), key=lambda f: f.q):
+        for e in [x for x in f.events() if is_call(x, 'buf_put')]:
+            a = strip(e['args'][1])
+            if last_member(a) != ('iv_fd_pump', 'bytes'):
+                if a.get('k') == 'int' and a['v'] == 0 and f.name == 'check_splice_available':
+                    continue
+                n += 1
+                ctx.ob('R-C17d', '%s:buf_put-fill-level' % f.name, False, loc=e['loc'],
+                       detail='buf_put(%s) is not given the pump\'s fill level' % canon(e['args'][1]), fn=f.q)
+                continue
+            n += 1
+            obj = canon(a['base'])
+            def tr(x, s_, obj=obj):
+                if x['ev'] == 'store' and last_member(x['lhs']) == ('iv_fd_pump', 'bytes') and canon(strip(x['lhs'])['base']) == obj:
+                    return True
+                return s_
+            _, ev_in = forward(f, False, tr, lambda p, q: p or q)
+            ok = not ev_in.get((e['_b'], e['_i']))
+            ctx.ob('R-C17d', '%s:buf_put-fill-level' % f.name, ok, loc=e['loc'],
+                   detail='buf_put(buf, %s->bytes): the fill level is not overwritten in this function before the buffer is handed back '
+                          '(a non-empty splice pipe must be closed, not cached)' % obj, fn=f.q)
+    if n < 2:
+        raise AnalysisBroken('buf_put sites with a fill level: %d found' % n)
+    b = prog.fn('buf_put')
+    hd = holding(b)
+    cache = [e for e in b.events() if is_call(e, ('iv_list_add', 'iv_list_add_tail'))]
+    ok = bool(cache)
+    for e in cache:
+        A = hd.get((e['_b'], e['_i']), frozenset())
+        # not (splice && bytes): reached only via the false edge of that conjunction => no must-atom; check the free arm instead
+    fr = [e for e in b.events() if is_call(e, '__buf_free')]
+    okf = False
+    for e in fr:
+        A = hd.get((e['_b'], e['_i']), frozenset())
+        if any(a[0] == '!=' and a[1] == 'splice_available' for a in A) and any(a[0] == '!=' and a[1] == b.params[1]['name'] for a in A):
+            okf = True
+    if prog.global_for('iv_fd_pump.c', 'splice_available') is not None:
+        ctx.ob('R-C17d', 'buf_put:dirty-splice-buffer-freed', okf, loc=b.loc,
+               detail='in splice mode a buffer with bytes still in its pipe is released (pipe closed), never cached', fn=b.q)
